@@ -174,8 +174,26 @@ class Result:
 MEM_LIMIT = int(os.environ.get("VERIF_MEM_LIMIT_MB", "6000")) * 1024 * 1024
 
 
+try:
+    import ctypes
+    _libc = ctypes.CDLL(None, use_errno=True)
+except Exception:       # pragma: no cover
+    _libc = None
+
+
+def _die_with_parent():
+    """child side: SIGKILL when the check that started this process goes away (a killed check must not leave
+    blocked interpreters behind; every child is its own session, so nothing else would reach it)"""
+    if _libc is not None:
+        try:
+            _libc.prctl(1, 9, 0, 0, 0)      # PR_SET_PDEATHSIG, SIGKILL
+        except Exception:
+            pass
+
+
 def _limit_memory():
     import resource
+    _die_with_parent()
     try:
         resource.setrlimit(resource.RLIMIT_AS, (MEM_LIMIT, MEM_LIMIT))
     except (ValueError, OSError):
@@ -190,7 +208,7 @@ def run(exe, args, env=None, stdin=b"", timeout=60, cwd=None):
     sanitized = "/asan" in exe or "/tsan" in exe
     p = subprocess.Popen([exe] + list(args), stdin=subprocess.PIPE, stdout=subprocess.PIPE,
                          stderr=subprocess.PIPE, env=base_env(env), cwd=cwd,
-                         start_new_session=True, preexec_fn=None if sanitized else _limit_memory)
+                         start_new_session=True, preexec_fn=_die_with_parent if sanitized else _limit_memory)
     try:
         out, err = p.communicate(stdin, timeout=timeout)
         to = False
